@@ -82,6 +82,10 @@ def plan(tier, seed):
         vals_ = OPTIONS[o][1]
         a_, b_ = (vals_[0], vals_[1]) if o != "color_format" else ("picosvg", "glyf_colr_0")
         cases.append({"id": f"opt-{o}-{str(a_).replace(' ', '_')}-after-{str(b_).replace(' ', '_')}", "kind": "single", "opt": o, "value": a_, "way": "flag", "prev": b_})
+    # non-interference: an option changes its own observable and nothing else (in every colour-format family)
+    for o, v in (("linegap", 123), ("family", "Fam One"), ("version_major", 3), ("version_minor", 42), ("keep_glyph_names", True)):
+        for fam in ("glyf_colr_1", "picosvg", "cbdt", "sbix"):
+            cases.append({"id": f"only-{o}@{fam}", "kind": "only", "opt": o, "value": v, "fmt": fam})
     # the user transform is placement in *every* colour-format family, not only COLR
     for fam in ("picosvg", "picosvgz", "glyf"):
         for v, w in (("translate(100, 50)", "flag"), ("matrix(1 0 0 1 -40 25)", "file"), (None, "absent")):
@@ -157,6 +161,13 @@ def observe(font, path, opt, cfgvals, bdir):
         ev = colreval.Evaluator(font)
         boxes = [ev.clip_box(g) for g in ev.color_glyphs()]
         return [tuple(int(v) for v in b) for b in boxes if b]
+    if opt == "bitmap_resolution" and "sbix" in font:
+        ppem, st = sorted(font["sbix"].strikes.items())[0]
+        g = [x for x in st.glyphs.values() if x.imageData][0]
+        from PIL import Image
+        import io as _io
+
+        return (ppem, Image.open(_io.BytesIO(bytes(g.imageData))).size[1])
     if opt == "bitmap_resolution":
         st = font["CBLC"].strikes[0]
         data = list(font["CBDT"].strikeData[0].values())[0]
@@ -473,8 +484,48 @@ def run_pair(case):
     return res
 
 
+OTHERS = {
+    "glyf_colr_1": ["family", "version_major", "version_minor", "upem", "ascender", "descender", "linegap", "width", "keep_glyph_names", "clipbox_quantization", "transform", "color_format"],
+    "picosvg": ["family", "version_major", "version_minor", "upem", "ascender", "descender", "linegap", "width", "keep_glyph_names", "transform", "color_format"],
+    "cbdt": ["family", "version_major", "version_minor", "upem", "ascender", "descender", "linegap", "width", "keep_glyph_names", "bitmap_resolution", "color_format"],
+    "sbix": ["family", "version_major", "version_minor", "upem", "ascender", "descender", "linegap", "width", "keep_glyph_names", "bitmap_resolution", "color_format"],
+}
+
+
+def run_only(case):
+    """An option given by flag changes its own observable and no other option's (same family, same sources)."""
+    from fontTools.ttLib import TTFont
+
+    from vf.drive import cli
+
+    opt, v, fam = case["opt"], case["value"], case["fmt"]
+    res = {"counters": {}, "violations": [], "tags": ["only", opt, fam]}
+    root = common.mkscratch("c20o-")
+    try:
+        flags = ["--color_format", fam, "--output_file", "Font.ttf"] + (["--bitmap_resolution", "32"] if fam in ("cbdt", "sbix") else [])
+        rc0, out0, b0 = build(cli, root, "base", fam, flags, None)
+        rc1, out1, b1 = build(cli, root, "pert", fam, flags + flag_args(opt, v), None)
+        res["counters"]["cli_builds"] = 2
+        if rc0 != 0 or rc1 != 0:
+            res["violations"].append({"what": f"build failed (exit {rc0}/{rc1})", "option": opt, "family": fam, "output": (out0 if rc0 else out1)[:1200]})
+            return res
+        f0, f1 = TTFont(str(b0 / "Font.ttf"), lazy=False), TTFont(str(b1 / "Font.ttf"), lazy=False)
+        for o in OTHERS[fam]:
+            if o == opt:
+                continue
+            a, b_ = observe(f0, str(b0 / "Font.ttf"), o, None, b0), observe(f1, str(b1 / "Font.ttf"), o, None, b1)
+            res["counters"]["other_observables_compared"] = res["counters"].get("other_observables_compared", 0) + 1
+            if a != b_:
+                res["violations"].append({"what": f"giving {opt}={v!r} changed the observable of {o}: {a} -> {b_}", "option": opt, "family": fam})
+        res["nontrivial"] = True
+        res["key"] = case["id"]
+    finally:
+        shutil.rmtree(root, ignore_errors=True)
+    return res
+
+
 def run_case(case):
-    return run_single(case) if case["kind"] == "single" else run_pair(case)
+    return {"single": run_single, "pair": run_pair, "only": run_only}[case["kind"]](case)
 
 
 def finish(agg):
@@ -482,6 +533,8 @@ def finish(agg):
     inc = []
     if t.get("pair", 0) == 0:
         inc.append("no multi-config case ran")
+    if t.get("only", 0) == 0:
+        inc.append("no non-interference case ran")
     if t.get("rebuild-after-option-change", 0) == 0:
         inc.append("no re-run with a changed option ran")
     for w in ("flag", "file", "both", "absent"):
